@@ -532,7 +532,9 @@ def clause_pairs(repo, chk):
         dr, dw = fr.defaults().get("val_in_fit"), fw.defaults().get("val_in_fit")
         if dr is None or dw is None:
             raise AnalysisError("VarsManager.%s / %s lost the val_in_fit option" % (r_, w_))
-        ok = const_value(dr) == const_value(dw) and isinstance(const_value(dr), bool)
+        if not isinstance(const_value(dr), bool) or not isinstance(const_value(dw), bool):
+            raise AnalysisError("VarsManager.%s / %s: the default of val_in_fit is not a literal True / False (%s / %s)" % (r_, w_, norm_text(dr), norm_text(dw)))
+        ok = const_value(dr) == const_value(dw)
         chk.oblige("E-pair", "%s(val_in_fit=%s) / %s(val_in_fit=%s)" % (r_, norm_text(dr), w_, norm_text(dw)), ok)
         if not ok:
             chk.violation("E-pair", fr.key, "default:%s/%s" % (r_, w_), "%s reads with val_in_fit=%s by default but %s writes with val_in_fit=%s: vm.%s(vm.%s()) moves every bounded parameter through the bound transform" % (r_, norm_text(dr), w_, norm_text(dw), w_, r_), file=VAR, line=fr.lineno)
